@@ -31,7 +31,7 @@ func ruleR15(p *Prog) []Ob {
 		want string
 	}{{true, "TryRLock"}, {false, "TryLock"}} {
 		assume := Assume{"Readonly": mode.ro}
-		ob := Ob{Rule: "R15", Inst: fmt.Sprintf("acquire:Readonly=%v", mode.ro), Props: []string{"C19"}, Pos: p.posStr(open.Pos()), Func: funcLabel(open), Nontrivial: true}
+		ob := Ob{Rule: "R15", Inst: fmt.Sprintf("acquire:Readonly=%v", mode.ro), Props: []string{"C19", "C02"}, Pos: p.posStr(open.Pos()), Func: funcLabel(open), Nontrivial: true}
 		if len(stored) > 0 {
 			ob.Status, ob.Msg = Undecided, "Options.Readonly is assigned inside the module"
 			obs = append(obs, ob)
